@@ -14,7 +14,7 @@ import random
 
 
 def opts(mode):
-    return "2,1,0,%d,%s" % (mode, "d" * 31)
+    return mode if isinstance(mode, str) else "2,1,0,%d,%s" % (mode, "d" * 31)
 
 
 def make_inputs(ctx, n_valid, n_mut):
@@ -62,6 +62,12 @@ def make_inputs(ctx, n_valid, n_mut):
     from gen.snippets import corpus
     for cat, t in corpus():
         cases.append(("corpus", 2, cat, t))
+    # ... and the forms that need every extension / translation switched on (mode given as the whole option string), in the four modes
+    from gen.snippets import extension_corpus
+    for cat, t in extension_corpus():
+        for m in range(4):
+            cases.append(("ext-corpus", "2,1,0,%d,%s" % (m, "1" * 31), cat, t))
+            cases.append(("ext-corpus", "2,1,0,%d,%s" % (m, "1" * 31), cat, mutate_tokens(rng, t, 1)))
     return cases
 
 
